@@ -108,7 +108,7 @@ pub fn get_apid_for_tag(namespace: u32, tag: &str) -> DltChar4 {
             let mut iteration = 0u16;
             loop {
                 let apid = match trimmed_tag.len() {
-                    0 => DltChar4::from_str(" ").unwrap(),
+                    0 => DltChar4::from_str(&get_4digit_str(" ", iteration)).unwrap(), // " ", " 001",...
                     1..=4 => DltChar4::from_str(&get_4digit_str(trimmed_tag, iteration))
                         .unwrap_or(DltChar4::from_str(&get_4digit_str("NoAs", iteration)).unwrap()),
                     _ => {
